@@ -116,7 +116,13 @@ Affordable(j) == IF j.fam = "int" /\ j.op \in {"powm", "monty_pow"}
 \* ================================================================== 4. AES / GHASH jobs (configurations: use_aesni x use_clmul)
 DataLens == {0, 1, 15, 16, 17, 31, 32, 33, 47, 48, 112, 113, 127, 128, 129, 143, 144, 255, 256, 257} \cup (IF Thorough THEN {1023, 1024, 1025, 2048} ELSE {})
 AesModes == {"ecb", "cbc", "cfb8", "cfb128", "ofb", "ctr", "openpgp", "ccm", "eax", "siv", "ocb", "gcm"}
-AesJob(m, k, d, n, o) == [fam |-> "aes", mode |-> m, klen |-> k, dir |-> d, len |-> n, off |-> o, must |-> n \in {0, 1, 16, 128} /\ o = 0 /\ k = 16 /\ d = "enc"]
+AesJob(m, k, d, n, o) == [fam |-> "aes", mode |-> m, klen |-> k, dir |-> d, len |-> n, off |-> o, outoff |-> 0, must |-> n \in {0, 1, 16, 128} /\ o = 0 /\ k = 16 /\ d = "enc"]
+\* the result written into a caller-supplied output buffer: a memoryview `oo` bytes into a larger bytearray (oo > 0), so that neither the
+\* input nor the output is aligned; the modes that document output= for encrypt() / decrypt()
+AesOutJob(m, k, d, n, o, oo) == [fam |-> "aes", mode |-> m, klen |-> k, dir |-> d, len |-> n, off |-> o, outoff |-> oo,
+                                 must |-> m \in {"ecb", "ctr"} /\ n \in {128, 144} /\ oo = 1 /\ o = 0 /\ k = 16]
+J21b == {AesOutJob(m, k, d, n, o, oo) : m \in {"ecb", "cbc", "cfb8", "cfb128", "ofb", "ctr"}, k \in {16, 32}, d \in {"enc", "dec"}, n \in {16, 112, 128, 144, 256},
+                                        o \in {0, 3}, oo \in {1, 8, 15, 16}}
 \* every length in a bytes object; the lengths around one block and around the 8-block stride at every buffer offset 1..15 (memoryview(buf)[o:])
 J20 == {AesJob(m, k, d, n, 0) : m \in AesModes, k \in {16, 24, 32}, d \in {"enc", "dec"}, n \in DataLens}
 J21 == {AesJob(m, k, d, n, o) : m \in AesModes, k \in {16, 24, 32}, d \in {"enc", "dec"}, n \in {16, 17, 128, 129}, o \in 1..15}
@@ -139,7 +145,7 @@ PkViolations == {"rsa-construct-inconsistent", "rsa-construct-even-n", "rsa-raw-
                  "ecc-construct-off-curve", "ecc-construct-d-zero", "ecdsa-verify-bad-length", "prime-generate-small"}
 J25 == {[fam |-> "pk", op |-> o, idx |-> i, must |-> i = 0] : o \in PkOps, i \in 0..(IF Thorough THEN 5 ELSE 1)}
 J26 == {[fam |-> "pkviol", op |-> o, idx |-> 0, must |-> TRUE] : o \in PkViolations}
-JobSets == <<J01, J02, J03, J04, J05, J06, J07, J08, J09, J10, J11, J12, J13, J14, J15, J16, J17, J18, J20, J21, J22, J23, J24, J25, J26>>
+JobSets == <<J01, J02, J03, J04, J05, J06, J07, J08, J09, J10, J11, J12, J13, J14, J15, J16, J17, J18, J20, J21, J21b, J22, J23, J24, J25, J26>>
 
 \* ================================================================== 6. the model
 VARIABLES mode, env, step, sel, aescfg, job
